@@ -87,6 +87,10 @@ video_sink_thread(struct video_sink_s* const self)
 Error:
     LOGE("[stream %d]: SINK: Exiting thread (Error)", self->stream_id);
     self->sig_stop_source(self);
+    // Nothing will consume from this queue anymore. Refuse writes so that a
+    // writer waiting for space (or arriving later) returns instead of
+    // blocking forever; writes are accepted again when the sink is restarted.
+    channel_accept_writes(&self->in, 0);
     channel_read_unmap(&self->in, &self->reader, 0);
     storage_stop(self->storage);
     self->is_running = 0;
